@@ -181,6 +181,18 @@ m('A40-end-on-size-hint-alone', [(IT, """        let n = n.min(self.initial_len.
             return None;
         }
 """)], ['C05'], 'the idea of seeded change C05-r4: needs a source that yields more than its exact hint announced (F7c)')
+m('A41-endless-loop-without-atomics', [(SL, """        let number_to_fetch = number_to_fetch.min(self.initial_len());
+""", """        let number_to_fetch = number_to_fetch.min(self.initial_len());
+        if number_to_fetch == 5 {
+            let mut spins = 0u64;
+            loop {
+                spins = std::hint::black_box(spins.wrapping_add(1));
+                if spins == u64::MAX - 1 {
+                    break;
+                }
+            }
+        }
+""")], ['C09'], 'a call that never returns and reaches no scheduling point: outside the simulated scheduler; C09 confirms the stalled run alone in a fresh process against a real-time limit (class no-return), every other check ends with exit 2 (harness error)')
 # variants that must stay quiet (Appendix B)
 m('B01-all-seqcst', [(AC, 'Ordering::AcqRel)', 'Ordering::SeqCst)'), (AC, 'Ordering::AcqRel)', 'Ordering::SeqCst)'), (AC, 'Ordering::Acquire)', 'Ordering::SeqCst)'),
                      (IT, 'self.completed.load(atomic::Ordering::Relaxed)', 'self.completed.load(atomic::Ordering::SeqCst)')], [], 'quiet')
